@@ -1,7 +1,9 @@
 (* Model of the output-stream side of rotonda's targets (property C17):
      src/targets/file/target.rs   FileRunner::run  (the Update::OutputStream arm, lines 150-190)
      src/targets/mqtt/target.rs   MqttRunner::output_stream_message_to_msg, direct_update,
-                                  the publish arm of process_events
+                                  the publish arm of process_events, reconfigure
+     src/ingress.rs               Register::get / update_info as the shared state the
+                                  mqtt target reads once per message
    Definitions only; proofs are in TargetsProofs.v.
 
    What is NOT modelled (exercised by the correspondence harness only): the
@@ -204,33 +206,83 @@ Definition LBRACE : N := 123.
 
 Definition topic_of (template topic : str) : str := replace_go id_pat topic O template.
 
-(* the ingress register as seen by the target: id -> info (opaque) *)
-Definition register := list (N * N).
+(* ------------------------------------------------------------------ the ingress register *)
 
-Fixpoint reg_get (r : register) (id : N) : option N :=
+(* ingress::IngressInfo: every field optional. Strings, addresses and paths are
+   numbers (the harness maps a number to a concrete value injectively). *)
+Record info := MkInfo {
+  i_unit : option N; i_parent : option N; i_addr : option N; i_asn : option N;
+  i_rib : option N; i_file : option N; i_name : option N; i_desc : option N }.
+
+(* ingress.rs, macro update_field!: a field the new info sets replaces the old
+   one, a field it leaves unset keeps the old value *)
+Definition upd_field (old new : option N) : option N :=
+  match new with Some _ => new | None => old end.
+
+Definition info_merge (old new : info) : info :=
+  MkInfo (upd_field (i_unit old) (i_unit new)) (upd_field (i_parent old) (i_parent new))
+         (upd_field (i_addr old) (i_addr new)) (upd_field (i_asn old) (i_asn new))
+         (upd_field (i_rib old) (i_rib new)) (upd_field (i_file old) (i_file new))
+         (upd_field (i_name old) (i_name new)) (upd_field (i_desc old) (i_desc new)).
+
+Definition info_fields : list (info -> option N) :=
+  [i_unit; i_parent; i_addr; i_asn; i_rib; i_file; i_name; i_desc].
+
+(* ingress::Register as the targets see it: id -> info. It is SHARED state: the
+   ingress units write it (update_info), the targets only read it (get). The
+   first entry for an id is the current one. An id handed out by
+   Register::register() has no entry until the first update_info for it. *)
+Definition register := list (N * info).
+
+Fixpoint reg_get (r : register) (id : N) : option info :=
   match r with
   | [] => None
   | (k, i) :: r' => if N.eqb k id then Some i else reg_get r' id
   end.
 
+(* Register::update_info(id, new): merge into the existing entry, or insert *)
+Definition merged (o : option info) (new : info) : info :=
+  match o with Some old => info_merge old new | None => new end.
+
+Definition merge_opt (o : option info) (new : info) : option info := Some (merged o new).
+
+Definition reg_update (r : register) (id : N) (new : info) : register :=
+  (id, merged (reg_get r id) new) :: r.
+
+(* ------------------------------------------------------------------ mqtt-out: one message *)
+
+(* the configuration values the output path reads; the component's name is
+   fixed when the target is created, template and QoS are replaced by a
+   Reconfigure command *)
 Record mqtt_cfg := MkCfg { mc_name : str; mc_template : str; mc_qos : N }.
 
-(* what is handed to the MQTT client *)
-Record pubmsg := MkPub { p_topic : str; p_qos : N; p_ing : option N; p_rec : record }.
+Definition reconf (c : mqtt_cfg) (tpl : str) (qos : N) : mqtt_cfg := MkCfg (mc_name c) tpl qos.
+
+(* SenderMsg, what direct_update puts on pub_q: the topic and the content, the
+   content being the JSON text of the pair (ingress info, record). Both are
+   FINAL at this point: nothing is looked up again when the message is
+   published. *)
+Record sendmsg := MkSend { s_topic : str; s_ing : option info; s_rec : record }.
+
+(* what the MQTT client is handed: client.publish(topic, qos, false, content) *)
+Record pubmsg := MkPub { p_qos : N; p_msg : sendmsg }.
 
 (* output_stream_message_to_msg: a message is selected iff its name is the
-   component's name; topic from the template, payload = (ingress info, record) *)
+   component's name; ingress info = what the register holds for the message's
+   ingress id NOW (self.ingresses.get(id), one read per message, no copy kept);
+   topic from the template the configuration holds NOW *)
 Definition addressed (c : mqtt_cfg) (m : osm) : bool := str_eqb (m_name m) (mc_name c).
 
-Definition mk_pub (c : mqtt_cfg) (r : register) (m : osm) : pubmsg :=
-  MkPub (topic_of (mc_template c) (m_topic m)) (mc_qos c)
-        (match m_ing m with Some id => reg_get r id | None => None end)
-        (m_rec m).
+Definition lookup_info (r : register) (m : osm) : option info :=
+  match m_ing m with Some id => reg_get r id | None => None end.
 
-Definition to_msg (c : mqtt_cfg) (r : register) (m : osm) : option pubmsg :=
-  if addressed c m then Some (mk_pub c r m) else None.
+Definition mk_send (c : mqtt_cfg) (r : register) (m : osm) : sendmsg :=
+  MkSend (topic_of (mc_template c) (m_topic m)) (lookup_info r m) (m_rec m).
 
-Fixpoint select (c : mqtt_cfg) (r : register) (ms : list osm) : list pubmsg :=
+Definition to_msg (c : mqtt_cfg) (r : register) (m : osm) : option sendmsg :=
+  if addressed c m then Some (mk_send c r m) else None.
+
+Fixpoint select (c : mqtt_cfg) (r : register) (ms : list osm) : list sendmsg :=
   match ms with
   | [] => []
   | m :: ms' => match to_msg c r m with
@@ -240,13 +292,25 @@ Fixpoint select (c : mqtt_cfg) (r : register) (ms : list osm) : list pubmsg :=
   end.
 
 (* direct_update: what one update appends to pub_q *)
-Definition mqtt_enqueue (c : mqtt_cfg) (r : register) (u : update) : list pubmsg :=
+Definition mqtt_enqueue (c : mqtt_cfg) (r : register) (u : update) : list sendmsg :=
   match u with UOutput ms => select c r ms | _ => [] end.
 
-(* a history of the target: updates arriving (direct_update, synchronous in the
-   sender), the publish loop taking one message off pub_q, ingresses being
-   registered, the MQTT client becoming available (connection.process() hands
-   it over) or going away (connection stopped, until the next one is set up).
+(* ------------------------------------------------------------------ mqtt-out: histories *)
+
+(* a history of the target and of the shared state it reads:
+     MUpdate    an update arrives: direct_update runs synchronously in the sender
+                (Gate::update_data awaits it), turns every addressed message into
+                a SenderMsg - THIS is where the register and the topic template
+                are read - and puts it on pub_q
+     MPublish   the publish loop takes one message off pub_q and hands it to the
+                client with the QoS the configuration holds at THAT moment
+     MInfo      some ingress unit calls Register::update_info(id, new): a new id
+                gets its first entry, a known one has fields added or replaced
+                (bmp Initiation adds sysName, a reconnecting router refreshes its
+                details)
+     MClient    the MQTT client becomes available (connection.process() hands it
+                over) or goes away (connection stopped, until the next one is set up)
+     MReconf    a Reconfigure command has been processed: self.config.store(new)
    Any interleaving of these is a history.
    Taking a message off the queue while there is no client DISCARDS it:
    publish_msg is called with connection.client() = None and do_publish then
@@ -254,32 +318,39 @@ Definition mqtt_enqueue (c : mqtt_cfg) (r : register) (u : update) : list pubmsg
 Inductive mev :=
 | MUpdate (u : update)
 | MPublish
-| MRegister (id info : N)
-| MClient (up : bool).
+| MInfo (id : N) (new : info)
+| MClient (up : bool)
+| MReconf (tpl : str) (qos : N).
 
-Record mstate := MkMs { ms_reg : register; ms_client : bool;
-                        ms_queue : list pubmsg; ms_published : list pubmsg }.
+Record mstate := MkMs { ms_cfg : mqtt_cfg; ms_reg : register; ms_client : bool;
+                        ms_queue : list sendmsg; ms_published : list pubmsg }.
 
-Definition mqtt_init : mstate := MkMs [] false [] [].
+Definition mqtt_init (c : mqtt_cfg) : mstate := MkMs c [] false [] [].
 
-Definition mqtt_step (c : mqtt_cfg) (s : mstate) (e : mev) : mstate :=
+Definition mqtt_step (s : mstate) (e : mev) : mstate :=
   match e with
-  | MUpdate u => MkMs (ms_reg s) (ms_client s) (ms_queue s ++ mqtt_enqueue c (ms_reg s) u) (ms_published s)
+  | MUpdate u => MkMs (ms_cfg s) (ms_reg s) (ms_client s)
+                      (ms_queue s ++ mqtt_enqueue (ms_cfg s) (ms_reg s) u) (ms_published s)
   | MPublish => match ms_queue s with
                 | [] => s
-                | p :: q => MkMs (ms_reg s) (ms_client s) q
-                                 (if ms_client s then ms_published s ++ [p] else ms_published s)
+                | p :: q => MkMs (ms_cfg s) (ms_reg s) (ms_client s) q
+                                 (if ms_client s then ms_published s ++ [MkPub (mc_qos (ms_cfg s)) p]
+                                  else ms_published s)
                 end
-  | MRegister id info => MkMs ((id, info) :: ms_reg s) (ms_client s) (ms_queue s) (ms_published s)
-  | MClient up => MkMs (ms_reg s) up (ms_queue s) (ms_published s)
+  | MInfo id new => MkMs (ms_cfg s) (reg_update (ms_reg s) id new) (ms_client s) (ms_queue s) (ms_published s)
+  | MClient up => MkMs (ms_cfg s) (ms_reg s) up (ms_queue s) (ms_published s)
+  | MReconf tpl qos => MkMs (reconf (ms_cfg s) tpl qos) (ms_reg s) (ms_client s) (ms_queue s) (ms_published s)
   end.
 
-Definition mqtt_run_from (c : mqtt_cfg) (s : mstate) (h : list mev) : mstate := fold_left (mqtt_step c) h s.
-Definition mqtt_run (c : mqtt_cfg) (h : list mev) : mstate := mqtt_run_from c mqtt_init h.
+Definition mqtt_run_from (s : mstate) (h : list mev) : mstate := fold_left mqtt_step h s.
+Definition mqtt_run (c : mqtt_cfg) (h : list mev) : mstate := mqtt_run_from (mqtt_init c) h.
 
 (* the publish loop, with a client, runs until pub_q is empty *)
 Definition mqtt_drain (s : mstate) : mstate :=
-  MkMs (ms_reg s) true [] (ms_published s ++ ms_queue s).
+  MkMs (ms_cfg s) (ms_reg s) true [] (ms_published s ++ map (MkPub (mc_qos (ms_cfg s))) (ms_queue s)).
+
+(* what the client was handed, without the QoS *)
+Definition sent (s : mstate) : list sendmsg := map p_msg (ms_published s).
 
 (* histories in which the publish loop only takes messages while a client exists
    ([up] = is there one at the start) *)
@@ -291,15 +362,52 @@ Fixpoint publishes_connected (up : bool) (h : list mev) : bool :=
   | _ :: h' => publishes_connected up h'
   end.
 
+(* the shared state as the history drives it, independently of the target: the
+   register is the result of the update_info calls so far, the configuration
+   that of the Reconfigure commands so far *)
+Definition reg_step (r : register) (e : mev) : register :=
+  match e with MInfo id new => reg_update r id new | _ => r end.
+Definition reg_after (r : register) (h : list mev) : register := fold_left reg_step h r.
+
+Definition cfg_step (c : mqtt_cfg) (e : mev) : mqtt_cfg :=
+  match e with MReconf tpl qos => reconf c tpl qos | _ => c end.
+Definition cfg_after (c : mqtt_cfg) (h : list mev) : mqtt_cfg := fold_left cfg_step h c.
+
 (* THE PROPERTY's demand: every message addressed to the target, in emission
-   order, with the ingress information known when it was emitted *)
-Fixpoint mqtt_spec (c : mqtt_cfg) (r : register) (h : list mev) : list pubmsg :=
+   order, with the topic of the template configured and the ingress metadata
+   the register holds WHEN THE MESSAGE IS EMITTED (= when direct_update is
+   called for its update): not what the register held at some earlier time
+   (a remembered copy), not what it will hold when the message is published *)
+Fixpoint mqtt_spec (c : mqtt_cfg) (r : register) (h : list mev) : list sendmsg :=
   match h with
   | [] => []
-  | MUpdate u :: h' => mqtt_enqueue c r u ++ mqtt_spec c r h'
-  | MRegister id info :: h' => mqtt_spec c ((id, info) :: r) h'
-  | _ :: h' => mqtt_spec c r h'
+  | e :: h' =>
+      (match e with MUpdate u => mqtt_enqueue c r u | _ => [] end)
+      ++ mqtt_spec (cfg_step c e) (reg_step r e) h'
   end.
+
+(* the same demand said message by message: every emitted message paired with
+   the configuration and the register of its moment *)
+Fixpoint stamped (c : mqtt_cfg) (r : register) (h : list mev) : list (mqtt_cfg * register * osm) :=
+  match h with
+  | [] => []
+  | e :: h' =>
+      (match e with MUpdate u => map (pair (c, r)) (msgs_of u) | _ => [] end)
+      ++ stamped (cfg_step c e) (reg_step r e) h'
+  end.
+
+Definition demanded (x : mqtt_cfg * register * osm) : list sendmsg :=
+  let '(c, r, m) := x in if addressed c m then [mk_send c r m] else [].
+
+(* the update_info calls of a history that concern one id, in order *)
+Definition updates_for (id : N) (h : list mev) : list info :=
+  flat_map (fun e => match e with
+                     | MInfo k new => if N.eqb k id then [new] else []
+                     | _ => []
+                     end) h.
+
+Definition fld (p : info -> option N) (o : option info) : option N :=
+  match o with Some i => p i | None => None end.
 
 (* order-preserving sub-sequence: [sub a b] = a is b with some elements left out *)
 Inductive sub {A : Type} : list A -> list A -> Prop :=
